@@ -33,6 +33,23 @@ func (b hexB) String() string               { return fmt.Sprintf("%x", []byte(b)
 func (b hexB) GoString() string             { return "hexB{...}" }
 func (b hexB) MarshalText() ([]byte, error) { return []byte("marshalled"), nil }
 
+// plainState is a fmt.State that is not package fmt's own printer: it has Write, Width, Precision and Flag and
+// nothing else (no WriteString). An outer type's Format method that delegates to a field's Format hands over
+// such a state; the verb must select the form all the same.
+type plainState struct{ out []byte }
+
+func (p *plainState) Write(b []byte) (int, error) { p.out = append(p.out, b...); return len(b), nil }
+func (p *plainState) Width() (int, bool)          { return 0, false }
+func (p *plainState) Precision() (int, bool)      { return 0, false }
+func (p *plainState) Flag(int) bool               { return false }
+
+// formatVia calls v.Format directly with a plainState.
+func formatVia(v fmt.Formatter, verb rune) string {
+	st := &plainState{}
+	v.Format(st, verb)
+	return string(st.out)
+}
+
 // letterVerbs are all fmt verbs made of one ASCII letter, except %T, %p and %w which package fmt
 // answers itself without calling the value's Format method (%w outside Errorf is a bad verb).
 var letterVerbs = func() []string {
